@@ -278,3 +278,21 @@ Proof.
   unfold get_before_until_slot. destruct (_ || _)%bool; [reflexivity|].
   unfold tag_epochs_n. rewrite !map_app. cbn [map fst snd tag_idx]. now rewrite sepochs_loop_absent.
 Qed.
+
+(* boolean versions of the two hypotheses on the index content (used for the non-vacuity examples and by the harness's
+   case selection) *)
+Fixpoint slots_descb (l : list tagged) : bool :=
+  match l with [] => true | x :: t => forallb (fun y => (slot y <=? slot x)%N) t && slots_descb t end.
+Lemma slots_descb_sound l : slots_descb l = true -> slots_desc l.
+Proof.
+  unfold slots_desc. induction l as [|x t IH]; intros H; [constructor|]. cbn in H.
+  apply andb_true_iff in H. destruct H as [H1 H2]. constructor; [auto|].
+  rewrite forallb_forall in H1. rewrite Forall_forall. intros y Hy. apply N.leb_le. auto.
+Qed.
+Definition slots_in_epochb (epoch_len : N) (l : list tagged) : bool :=
+  forallb (fun t => (tag t * epoch_len <=? slot t)%N) l.
+Lemma slots_in_epochb_sound epoch_len eps :
+  slots_in_epochb epoch_len (history eps) = true -> slots_in_epoch epoch_len eps.
+Proof.
+  unfold slots_in_epochb, slots_in_epoch. intros H t Ht. rewrite forallb_forall in H. apply N.leb_le. auto.
+Qed.
